@@ -240,8 +240,8 @@ class World:
                 self.by_id[id(o)] = e
             self._emit(sub, n0)
             follow = True
-        elif k in ("C", "CD"):
-            if k == "C":
+        elif k in ("C", "CD", "CC"):
+            if k in ("C", "CC"):
                 lv = self.live()
                 if op[1] >= len(lv):
                     return False
@@ -256,7 +256,16 @@ class World:
             self._snap(sub)
             n0 = len(self.lg.got)
             try:
-                sub.ret = m._cancel_order(Cancel(o))
+                if k == "CC":
+                    # the cancel wraps an equal-valued COPY of the resting order (an agent that rebuilds the order from
+                    # the record it was sent); the book must treat it like the order itself
+                    import copy
+                    oc = copy.copy(o)
+                    sub.ret = m._cancel_order(Cancel(oc))
+                    if oc.is_canceled:
+                        o.is_canceled = True  # the harness' own bookkeeping reads the flag from the original object
+                else:
+                    sub.ret = m._cancel_order(Cancel(o))
             except Exception as e:  # noqa
                 sub.exc = e
             ent = self.by_id[id(o)]
